@@ -107,6 +107,16 @@ def make_config(rng, ns, spec):
         conf["node"][kd] = {k: rng.choice(vals[k]) for k in rng.sample(keys, rng.randint(1, 3))}
     for c in rng.sample(spec["comps"], min(len(spec["comps"]), rng.randint(0, 3))):
         conf["node"][c["name"]] = {k: rng.choice(vals[k]) for k in rng.sample(keys, rng.randint(1, 3))}
+    # a direct conflict: one component of an overridden kind overrides the SAME attributes with other values
+    over = [c for c in spec["comps"] if c["kind"] in conf["node"]]
+    if over and rng.random() < 0.6:
+        c = rng.choice(over)
+        conf["node"][c["name"]] = {k: rng.choice([x for x in vals[k] if x != v] or vals[k]) for k, v in conf["node"][c["kind"]].items()}
+    if rng.random() < 0.5:
+        # precedence is default -> kind -> name whatever the order in which the caller filled the dictionary
+        items = list(conf["node"].items())
+        rng.shuffle(items)
+        conf["node"] = dict(items)
     groups = sorted(set(c["group"] for c in spec["comps"] if c.get("group")))
     for g in groups:
         if rng.random() < 0.4:
